@@ -3,9 +3,10 @@
 
 usage: tools/orig_detection.py [--tier quick|thorough] [--base <commit>] [ID...]
 
-A scratch worktree of the base commit (default: the parent of the first `fix:` commit, i.e. the pinned tree) is
-created under $TMPDIR, every check runs with VERIF_REPO=<worktree> and VERIF_OUT=<scratch>, and the mechanisms it
-reports are compared with the `fixed` records of known_findings.json: a fixed record whose mechanism is not seen
+For every `fixed` record of known_findings.json a scratch worktree of `<its commit>~1` (the tree right before that
+repair, earlier repairs applied - on the pinned tree the defects mask each other) is created under $TMPDIR, the
+property's check runs with VERIF_REPO=<worktree> and VERIF_OUT=<scratch>, and the mechanisms it reports are compared
+with the record: a fixed record whose mechanism is not seen
 on the pre-fix tree means the check would not notice the defect coming back.  Nothing is written into /verif
 except the table printed on stdout (DESIGN.md section 8 quotes it); the worktree is removed afterwards.
 """
@@ -37,6 +38,7 @@ def main():
         i = args.index("--base")
         base = args[i + 1]
         del args[i:i + 2]
+    base_given = base
     if base is None:
         log = sh(["git", "-C", "/repo", "log", "--format=%h %s", "--reverse"]).stdout.splitlines()
         first_fix = next(line.split()[0] for line in log if line.split(" ", 1)[1].startswith("fix:"))
@@ -46,29 +48,35 @@ def main():
     fixed = [f for f in findings if f["status"] == "fixed"]
     ids = [a.upper() for a in args] or sorted({f["property"] for f in fixed})
     tmp = tempfile.mkdtemp(prefix="verif-orig-")
-    wt = os.path.join(tmp, "repo")
-    r = sh(["git", "-C", "/repo", "worktree", "add", "--detach", "-q", wt, base])
-    if r.returncode:
-        print(r.stderr)
-        return 2
     rows = []
+    per_fix = "--per-fix" in sys.argv or base_given is None
     try:
-        for pid in ids:
-            env = dict(os.environ, VERIF_REPO=wt, VERIF_OUT=os.path.join(tmp, "out"), VERIF_SEED=os.environ.get("VERIF_SEED", "0"))
-            t0 = time.time()
-            r = sh([os.path.join(VERIF, "check"), pid, tier], env=env, cwd=VERIF)
-            seen = {}
-            for m in re.finditer(r"violation mechanism=(\S+) count=(\d+)", r.stdout):
-                seen[m.group(1)] = int(m.group(2))
-            for f in [f for f in fixed if f["property"] == pid]:
+        for f in fixed:
+            pid = f["property"]
+            if pid not in ids:
+                continue
+            # the tree right before this repair (earlier repairs applied: defects mask each other on the pinned tree)
+            rev = (f["commit"] + "~1") if per_fix else base
+            wt = os.path.join(tmp, "repo-" + f["commit"] + "-" + pid)
+            r = sh(["git", "-C", "/repo", "worktree", "add", "--detach", "-q", wt, rev])
+            if r.returncode:
+                rows.append((pid, f["commit"], f["mechanism"], "no such commit", 0))
+                continue
+            try:
+                env = dict(os.environ, VERIF_REPO=wt, VERIF_OUT=os.path.join(tmp, "out"), VERIF_SEED=os.environ.get("VERIF_SEED", "0"))
+                t0 = time.time()
+                r = sh([os.path.join(VERIF, "check"), pid, tier], env=env, cwd=VERIF)
+                seen = {}
+                for m in re.finditer(r"violation mechanism=(\S+) count=(\d+)", r.stdout):
+                    seen[m.group(1)] = int(m.group(2))
                 mech = f["mechanism"]
                 hit = [k for k in seen if k == mech or k.startswith(mech) or mech.startswith(k)]
-                rows.append((pid, f["commit"], mech, "re-detected" if hit else "NOT SEEN", sum(seen[k] for k in hit)))
-            extra = [k for k in seen if not any(k == f["mechanism"] or k.startswith(f["mechanism"]) or f["mechanism"].startswith(k)
-                                                for f in findings if f["property"] == pid)]
-            print(f"{pid} rc={r.returncode} {time.time() - t0:.0f}s mechanisms={len(seen)} unlisted={extra[:6]}", flush=True)
+                verdict = "re-detected" if hit else ("other violation only" if seen else "NOT SEEN")
+                rows.append((pid, f["commit"], mech, verdict, sum(seen[k] for k in hit) if hit else sorted(seen)[:2]))
+                print(f"{pid} {f['commit']}~1 rc={r.returncode} {time.time() - t0:.0f}s {verdict} {sorted(seen)[:3]}", flush=True)
+            finally:
+                sh(["git", "-C", "/repo", "worktree", "remove", "--force", wt])
     finally:
-        sh(["git", "-C", "/repo", "worktree", "remove", "--force", wt])
         shutil.rmtree(tmp, ignore_errors=True)
     print()
     print("| property | repaired by | mechanism | on the pre-fix tree | witnesses |")
@@ -76,7 +84,7 @@ def main():
     for row in rows:
         print("| " + " | ".join(str(x) for x in row) + " |")
     missing = [r for r in rows if r[3] != "re-detected"]
-    print(f"\n{len(rows) - len(missing)}/{len(rows)} fixed records re-detected at tier {tier} on {base}")
+    print(f"\n{len(rows) - len(missing)}/{len(rows)} fixed records re-detected at tier {tier}, each on the tree right before its repair")
     return 1 if missing else 0
 
 
